@@ -27,7 +27,10 @@ theorem step_pub2in {b : B} (hI : BInv b) (ev : Ev) (r : Nat) :
       | .packet c p => if bound b c r then newQ p (pub2inOf b r) else pub2inOf b r
       | _ => pub2inOf b r := by
   cases ev with
-  | first c f a => exact first_q hI c f a r
+  | first c f a =>
+    exact (Mqtt.Proofs.Connect.connect_state (fun b' => BInv b' ∧ pub2inOf b' r = pub2inOf b r)
+      (fun b' c' h => ⟨h.1.same (stop_same b' c'), ((stop_same b' c').q r).trans h.2⟩)
+      (fun b' c' f' a' h => ⟨first_inv h.1 c' f' a', (first_q h.1 c' f' a' r).trans h.2⟩) b c f a ⟨hI, rfl⟩).2
   | close c => exact (stop_same b c).q r
   | srvPub p => exact (onPublish_frame b _).1.same.q r
   | srvSub cb f q =>
